@@ -80,6 +80,7 @@ def absStep (a : Abs) : Op → Abs × Res
     | none => (a, .indexError)
     | some c => ({ a with sel := c }, .done)
   | .filterSlice i j => ({ a with sel := (a.sel.take j).drop i }, .done)
+  | .filterStride i j k => ({ a with sel := stride k ((a.sel.take j).drop i) }, .done)
   | .removeUntimed => ({ a with sel := removeUntimed a.sel }, .done)
   | .clear => ({ a with sel := a.orig }, .done)
   | .rewind => ({ a with pos := none }, .done)
